@@ -53,8 +53,8 @@ void one_case(Ctx &c) {
     uint32_t op = c.t.weighted(W);
     s.clear_tx();
     if (op == 0) {        // set
-      int e = c.t.chance(8) ? CO_EMCY_N + (int)c.t.below(8) : (int)c.t.below(NE);
-      int ee = e >= CO_EMCY_N ? CO_EMCY_N - 1 : e;     // documented: numbers beyond the table address the last entry
+      int e = (int)c.t.below(NE);                      // error numbers beyond the table are not in the statement (exercised for memory safety in C01)
+      int ee = e;
       bool usr = c.t.coin(); CO_EMCY_USR u; u.Hist = c.t.u16(); for (int k = 0; k < 5; k++) u.Emcy[k] = c.t.byte();
       s.api_begin(); COEmcySet(&s.node->Emcy, (uint8_t)e, usr ? &u : 0); s.api_end("COEmcySet");
       VLOG(c, "set(%d%s) class %u code %04X", e, usr ? ", user data" : "", s.emcy[ee].Reg, s.emcy[ee].Code);
@@ -129,7 +129,7 @@ void one_case(Ctx &c) {
 Registrar reg(Prop{
     "C15",
     "Cases: node id 1..127, emergency table with register bits 0..7 per error (several errors per bit, generic bit used), 2..11 (32) errors in use, history depth 0..8 (0 = 1003h absent); histories of up to 60 (120) ops: "
-    "COEmcySet(err[, user data]) incl. numbers beyond the table, COEmcyClr, COEmcyReset(silent?), SDO write 0 / non-zero to 1003h:0, SDO reads of 1003h:0..n, NMT state changes and resets, valid/invalid rewrites of 1014h, ticks. "
+    "COEmcySet(err[, user data]), COEmcyClr, COEmcyReset(silent?), SDO write 0 / non-zero to 1003h:0, SDO reads of 1003h:0..n, NMT state changes and resets, valid/invalid rewrites of 1014h, ticks. "
     "Oracle: reference model after every step: active set (COEmcyGet), count (COEmcyCnt), 1001h bits, EMCY frames (exactly one per real transition, code, updated register byte, 5 manufacturer bytes, identifier = 1014h; none for silent reset, outside PRE-OP/OP or with an invalid COB-ID), history newest-first with its count, clear on write 0, 0609 0030h otherwise. "
     "Non-trivial: two errors sharing a register bit were active together, or the history wrapped. Distinct = distinct decoded choice sequence.",
     {Mode{"random", one_case, false, 1500000, 20000000, 0, 0, 260, 500}},
